@@ -172,6 +172,14 @@ class Conv:
             for y in small:
                 if x <= y and x * y <= 1024:
                     cs.add(x * y)
+        # … and with the sum of the pieces they are split into (`split_first_chunk::<32>()` then `rest.len() == 32`; a tag byte in front)
+        blocks = sorted(c for c in cs if c % 8 == 0 and 8 <= c <= 128)
+        for x in blocks:
+            for y in blocks:
+                if x <= y:
+                    cs.add(x + y)
+                    cs.add(x + y + 1)
+            cs.add(x + 1)
         dom = {0}
         for c in cs:
             for dlt in (-1, 0, 1):
